@@ -358,7 +358,13 @@ func (ft *FuncTr) unop(st *State, at *Term, x *ssa.UnOp) error {
 				ft.noteGuard(x, g) // the contents of a guarded map / slice are guarded too
 			}
 		}
-		t := ft.load(st, at, pv, ty, x.Pos(), exprText(ft, x.X))
+		lst := st
+		if g, ok := x.X.(*ssa.Global); ok && ft.w.writeOnce(g) {
+			// a package variable assigned only by the package's initialisation has the same value at all times: read it
+			// from the entry state, so that it survives the havoc of abstracted calls
+			lst = ft.init
+		}
+		t := ft.load(lst, at, pv, ty, x.Pos(), exprText(ft, x.X))
 		ft.define(x, t)
 	case token.NOT:
 		ft.define(x, Not(ft.term(x.X)))
